@@ -143,6 +143,12 @@ def run(chk, drv):
     ncases = 1500 if tier == 'quick' else 40000
     cases = [(bytes.fromhex(c['bytes']), c['widths']) for c in corpus if c.get('kind') == 'read']
     cases += [gen_case(chk.rng) for _ in range(ncases)]
+    # payloads beyond 64 KiB read field by field to the end (a reader that buffers in chunks has its seams there): a short odd field first,
+    # so that every later field straddles byte boundaries
+    for k in range(2 if tier == 'quick' else 12):
+        ws = [chk.rng.randint(1, 7)] + [chk.rng.choice([32, 32, 31, 29, 17, 8]) for _ in range(chk.rng.randint(23000, 30000))]
+        nbytes = (sum(ws) + 7) // 8 + chk.rng.choice([0, 1, 100])
+        cases.append((chk.rng.randbytes(nbytes), ws))
     reqs = [{'op': 'bits.read', 'bytes': d.hex(), 'widths': ws} for d, ws in cases]
     model = drv.run(reqs) if drv is not None else [None] * len(cases)
     for i, ((d, ws), m) in enumerate(zip(cases, model)):
